@@ -5,7 +5,7 @@ def run(tier, seed):
     if tier == 'quick':
         sel = [(d[n], [3]) for n in ('lalr', 'etf', 'lrece', 'pal', 'trail', 'mutleft', 'nulfirst', 'lrnul')] + [(d['rrec'], [4])] + [(g, [3]) for g in families.g_rand(seed + 200, 2)]
     else:
-        sel = [(g, [l for l in (1, 2, 3, 4, 5) if (g.nt + 1) ** l <= 4000]) for g in d.values() if g.name not in families.KNOWN_DEFECT_UNITS] + [(g, [2, 3, 4]) for g in families.g_rand(seed + 200, 12)]
+        sel = [(g, [l for l in (1, 2, 3, 4, 5) if (g.nt + 1) ** l <= 4000]) for g in d.values() if g.name not in families.KNOWN_DEFECT_UNITS | families.SPECIAL_VARIANT_UNITS] + [(g, [2, 3, 4]) for g in families.g_rand(seed + 200, 12)]
     rc = cp.run_parse_property('C09', tier, seed, sel, ['accept', 'messages', 'silent'],
         'one query per (grammar unit, exact input length), verbose off: empty optional iff not in the language; exactly the reference message list '
         '(kind, line, column, offending term or byte); canonical LR(1) reference => the offending term is the first one that extends no viable prefix; success writes nothing',
